@@ -61,11 +61,21 @@ def judge(text, also_loads=True):
     pos = r[1]
     if pos is None:
         return ("no-position", r[2])
-    starts = syntax.token_starts(text, o.tokens(text, keep_skipped=True))
+    toks_all = o.tokens(text, keep_skipped=True)
+    starts = syntax.token_starts(text, toks_all)
     if pos not in starts:
         return ("position-not-a-token-start", "reported %r: %s" % (pos, r[2]))
     if pos < m[1]:
         return ("position-too-early", "reported %r but the text is viable up to %r: %s" % (pos, m[1], r[2]))
+    if "\r" in text:
+        # the checks above used ANTLR's own line counting (only \n starts a line); a reader counts every NEWLINE token
+        true_starts = {syntax.linecol_true(text, t[2]) for t in toks_all} | {syntax.linecol_true(text, len(text))}
+        true_first = syntax.linecol_true(text, m[3])
+        if pos not in true_starts or pos < true_first:
+            import re
+            if re.search(r"\r(?!\n)", text):
+                return ("cr-only-line-count", "reported %r; counting every line break the first non-viable token is at %r: %s" % (pos, true_first, r[2]))
+            return ("crlf-position", "reported %r; first non-viable token at %r: %s" % (pos, true_first, r[2]))
     if also_loads:
         f = syntax.full_load(text)
         if f[0] == "PROGRAM":
@@ -172,6 +182,14 @@ def build(ctx, o):
                 if t not in cases:
                     cases[t] = (name, "exotic")
                     per[name] += 1
+    # CRLF and CR variants of every base: deletions and truncations only (positions under other line-ending styles)
+    for name in names:
+        for nl, tag in (("\r\n", "crlf"), ("\r", "cr")):
+            base = BASES[name].replace("\n", nl)
+            for kind, t in mutants(base, o, [], with_swaps=False):
+                if t not in cases:
+                    cases[t] = (kind + "-" + tag, name)
+                    per[kind + "-" + tag] += 1
     header = "name p\nversion 1.0\n\n"
     prefixes = [header, header + "G(", header + "G(1, ", header + "G | ", header + "int n = ", header + "float array A =\n    ",
                 header + "for int i in ", header + "for int i in 0:2\n    ", "name p\nversion 1.0\ntarget g ", ""]
